@@ -25,6 +25,7 @@ def world (cdType : String) : World := fun q => match q with
   | .nowSeconds => (0 : Int)
   | .tokenBytes _ _ => []
   | .builtinPem _ => []
+  | .pemCanon _ => none
 
 def okpKey : Cbor := .map [(.uint 1, .uint 1), (.uint 3, .nint 7), (.nint 0, .uint 6), (.nint 1, .bytes (List.replicate 32 1))]
 
